@@ -98,7 +98,10 @@ def run(pid, tier, seed, ctx):
                     buckets.setdefault("literals", []).append(f"C19 literals {rest}")
             if op == "and" and rest.startswith("(l") or (op == "and" and rest.startswith("(&")):
                 buckets.setdefault("nary", []).append(f"C19 nary {rng.choice(['and', 'or'])} {rest}")
-    texts = ["a & b | !c", "(a v b) ^ NOT zz", "true", "falſe", "{a b} | x_10", "a &", "(a", "a b", "", "$", "{}", "a)"]
+    texts = ["a & b | !c", "(a v b) ^ NOT zz", "true", "falſe", "{a b} | x_10", "a &", "(a", "a b", "", "$", "{}", "a)",
+             # faults near the end of padded texts: positions and vicinities in the messages are those of the
+             # text the caller passed
+             "(a & b \n", "{a  ", "a ) ", " (a", "a & b )\t", "{} ", "  $  ", "a & {b", "x | (y & z\r\n", "\n(a"]
     for t in texts:
         buckets.setdefault("parse", []).append(f"C19 parse x{hexs(t)}")
     buckets["ctor.bad"] = ["C19 ctor.bad"]
